@@ -84,10 +84,10 @@ func c23Ring() []byte {
 // ticket id label 1..6 -> 32-byte id; larger label = larger id
 func c23ID(l int) types.TicketID {
 	var id types.TicketID
-	id[0] = byte(0x10 * l)
-	for k := 1; k < 32; k++ {
-		id[k] = byte(0x77 ^ k ^ l)
+	for k := 0; k < 31; k++ {
+		id[k] = byte(0x77 ^ k) // all ids share their first 31 bytes
 	}
+	id[31] = byte(0x10 * l)
 	return id
 }
 
